@@ -297,6 +297,9 @@ type Options struct {
 	// StructMembers tells how to split a struct body: if nil the body must be a
 	// concatenation of self-delimiting scalar values (what the harness generates).
 	MaxDepth int
+	// IgnoreNUL accepts strings whose terminator byte is not zero (the library does not
+	// check the terminator when reading).
+	IgnoreNUL bool
 }
 
 // Decode decodes the value that ends at the end of b (which must be exactly the
@@ -439,7 +442,7 @@ func decodeSuffix(b []byte, opt Options, depth int) (*gen.Node, int, error) {
 		if sz > maxSize || uint64(len(rest)) < sz+1 {
 			return nil, 0, errf("string: size %d beyond input", sz)
 		}
-		if rest[len(rest)-1] != 0 {
+		if rest[len(rest)-1] != 0 && !opt.IgnoreNUL {
 			return nil, 0, errf("string: missing NUL terminator")
 		}
 		rest = rest[:len(rest)-1]
